@@ -37,6 +37,7 @@ type histGen struct {
 	MultiFilter                                                                   bool // several filters per SUBSCRIBE
 	InitAll                                                                       bool // every client connects at the start (otherwise each is skipped with probability 1/5)
 	RetainBias                                                                    int  // 0: retain drawn 50/50; n>0: retain with probability n/(n+1)
+	AckFailure                                                                    bool // v5 clients' manual acknowledgements sometimes carry a failure reason code
 }
 
 var stdTopics = []string{"a", "b", "a/b", "a/a", "b/a", "a/b/c", "a/b/a", "$x/a", "a/", "/a"}
@@ -165,7 +166,11 @@ func (g *histGen) Draw(rt *rapid.T) *hist.Case {
 		case "ping":
 			return hist.Action{Kind: "ping", Client: cl}
 		case "ack":
-			return hist.Action{Kind: "ack", Client: cl, Index: rapid.IntRange(0, 5).Draw(rt, "ackidx")}
+			a := hist.Action{Kind: "ack", Client: cl, Index: rapid.IntRange(0, 5).Draw(rt, "ackidx")}
+			if g.AckFailure && versions[cl] == 5 && rapid.IntRange(0, 3).Draw(rt, "ackfail") == 0 {
+				a.Reason = pick(rt, "ackreason", []byte{0x80, 0x83, 0x97})
+			}
+			return a
 		}
 		return hist.Action{Kind: "nop"}
 	})
